@@ -59,10 +59,10 @@ CHECKS.update({
 })
 
 CHECKS.update({
- "C06": dict(engine="E2-bubble + E1-enum", cat="model_checking", tech=E2,
+ "C06": dict(engine="E2-bubble + E1-enum + E3-sched", cat="model_checking", tech=E2 + "; schedule part: " + E3,
   text="Tree search: Selected hsmsss connection (passive/active x host/equipment, two data handlers, T3 3 s), n <= 2 (thorough <= 3) overlapping reply-expected sends; every peer history of length <= 3 (thorough <= 4) over, per open transaction: reply, duplicate reply, odd-function W=0 message, W and non-W primary with colliding system bytes, Reject.req reason {1..5,255}, Select/Deselect/Linktest.rsp with colliding system bytes, ctx cancel; plus unsolicited secondary, T3-1ms, +2ms, peerClose, Close. After every event each call's return value and virtual return time, the per-handler delivery logs and the library's frames are compared with a reference map of open transactions (own reply byte-identical, RejectError reason, ErrT3Timeout at exactly write+T3, ErrConnClosed, ctx error; never (nil,nil); one recipient per inbound data frame). Plus 2^16+10 consecutive system-bytes draws read off the wire.",
   note="Depth-bounded; events separated by quiescence (exact ties of reply/T3/cancel are not enumerated by this part). HSMS-SS. The genuine defect this check found (control response colliding with an open data transaction -> (nil,nil)) is repaired in /repo (fix: commit 0542585)."),
- "C20": dict(engine="E2-bubble", cat="model_checking", tech=E2,
+ "C20": dict(engine="E2-bubble + E3-sched", cat="model_checking", tech=E2 + "; schedule part: " + E3,
   text="Tree search: every history of length <= 3 over a 23-symbol alphabet and <= 4 over 14 symbols (thorough deeper), with at most 3 sends: the 5 send entry points, stall+write-timeout and reset-under-blocked-write errors, reply / Reject / cancel / T3, drop, reconnect, refused dials, Deselect/Select, inbound data, malformed frames, Close. At every quiescent point all eight metrics are compared with a reference ledger of the documented per-outcome vectors and with the peer's own count of data frames received over all TCP generations: in-flight >= 0 and equal to waiting sends, Reconnecting > 0 exactly while the backoff loop runs, 0 after Close.",
   note="Depth-bounded, quiescent points only (gauge between scheduling points is not enumerated); HSMS-SS only; Reconnects() checked for the active role. Trusted: synctest, sim, ledger derived from the doc comments."),
 })
@@ -77,9 +77,9 @@ CHECKS.update({
 })
 
 CHECKS.update({
- "C07": dict(engine="E2-bubble", cat="exploration", tech=E2,
+ "C07": dict(engine="E2-bubble + E3-sched", cat="model_checking", tech=E2 + "; schedule part: " + E3,
   text="Exhaustive enumeration of the stated finite families of histories on a real hsmsss connection in virtual time: every not-selected situation (13 active / 11 passive: never opened, connecting, refused dial, connected-not-selected, deselected, select rejected, separated, T6/T7 expiry, in backoff, between generations, closed, reopened) x every data-sending entry point; every connected-not-selected situation x inbound data frames over kinds, session ids and system bytes; every <= 2-cut (thorough <= 3) segmentation of the select-plus-data streams incl. simultaneous select; the queued-behind-a-blocked-write-then-deselected scenario. Each step compared with exact expected frames, errors, drop-counter deltas, deliveries and link state.",
-  note="Exhaustive only over the listed histories, roles and one timer configuration; the B1/B2 race between a concurrent sender and a deselect is not scheduled (no E3 scenario for it). Trusted: synctest, sim, expected frames written from E37."),
+  note="Exhaustive only over the listed histories, roles and one timer configuration; the E3 part (checks/c07s) adds the schedule dimension: data pipelined behind Select.req/Select.rsp (3 write groupings x 2 roles) and a data send racing Deselect/Select/Separate.req (sync, async), every schedule with <= 1 departure (thorough 2) around two canonical orders (default; library-first with sticky departures), State() must not leave Selected without a cause, exactly one of {frame on the wire, nil} / {nothing on the wire, not-selected error, one drop}. Trusted: synctest, sim, expected frames written from E37."),
  "C14": dict(engine="E1-enum + race pass", cat="exploration", tech=E1 + "; resource families in ulimit-bounded worker processes; supporting -race pass",
   text="Exhaustive enumeration of all token sequences of length <= 4 (quick) / <= 5 plus type-led length 6 (thorough) over a 26-token SML alphabet and all byte strings of length <= 2 (256 values) and 3 (64 bytes), plain and behind 'S1F1 W <', through every public parse entry point, strict and non-strict: no panic; messages xor error; message validity; ParseError offset in range with line/column recomputed from the input; reused parser equals fresh parser. Resource families (nesting depth to 4e6, size hints to 2^63 for all 16 item types, unterminated strings/numbers/comments, n messages) run one point per worker process under ulimit -v: exit status 0, allocation bound, at most quadratic growth of TotalAlloc/Mallocs. Shared state: go/ast scan of package-level vars, concurrent == sequential over a 227-text corpus, free-running -race pass.",
   note="Exhaustive only over the stated alphabets and family points; resource use judged through deterministic proxies (allocation counters, exit status), CPU-time horizon 60 s doubled once, never a wall-clock verdict; allocation bound 1 MiB + 64*len + len^2. The three genuine defects this check found (size-hint allocation, unbounded recursion, panic after a closing quote) are repaired in /repo (fix: commits f8f2844, c5c42c9, d3552cd)."),
@@ -129,7 +129,7 @@ def main():
              "kind_free_text": "bounded-exhaustive enumeration of inputs / operation sequences of the real sequential API against boring reference models"},
             {"name": "E2-bubble", "path": "e2, sim, peer", "serves_properties": ["C04", "C06", "C07", "C08", "C09", "C10", "C11", "C17", "C18", "C19", "C20"],
              "kind_free_text": "explicit-state search over environment event histories against a real connection inside a testing/synctest bubble (virtual time, in-memory network owned by the harness)"},
-            {"name": "E3-sched", "path": "e3, shim/*, cmd/vinstr", "serves_properties": ["C05", "C06", "C09", "C10", "C12", "C20"],
+            {"name": "E3-sched", "path": "e3, shim/*, cmd/vinstr", "serves_properties": ["C05", "C06", "C07", "C09", "C10", "C12", "C20"],
              "kind_free_text": "hand-rolled stateless model checker: build-time AST instrumentation (go build -overlay) puts a scheduling point before every synchronisation operation; cooperative scheduler + departure-bounded DFS; replayable choice lists"},
         ],
         "checks": checks,
